@@ -670,7 +670,9 @@ func reifySliceMerge(
 	}
 	tmp := reflect.MakeSlice(tTo, l, l)
 
-	if withOld {
+	if withOld && arrMergeCfg != cfgReplaceValue {
+		// (under the replace policy nothing of the old list survives, not even
+		// the fields of its elements the new elements do not set)
 		reflect.Copy(tmp.Slice(cpyStart, tmp.Len()), old)
 	}
 	return reifyDoArray(opts, tmp, tTo.Elem(), start, val, arr)
